@@ -72,6 +72,11 @@ M = {
     "build-prunes-callers-dict": (["C12"], [("src/spox/_public.py",
         "        del model_proto.graph.input[:]\n",
         "        for _n in [n for n in inputs if n not in used]:\n            del inputs[_n]\n        del model_proto.graph.input[:]\n")]),
+    "adapt-inline-keeps-converted-model": (["C12"], [("src/spox/_adapt.py",
+        "        finally:\n            node.model = base_model\n", "        finally:\n            pass\n")]),
+    "opset-import-order-from-set": (["C12"], [("src/spox/_schemas.py",
+        "    grouping = itertools.groupby(sorted(opset_req), key=lambda x: x[0])\n    return {domain: max(v for _, v in group) for domain, group in grouping}",
+        "    out: Dict[str, int] = {}\n    for domain, v in opset_req:\n        out[domain] = max(v, out.get(domain, 0))\n    return out")]),
     "renames-restore-to-none": (["C12"], [("src/spox/_public.py",
         "        for arg, name in pre.items():\n            arg._rename(name)",
         "        for arg, name in pre.items():\n            arg._rename(None)")]),
